@@ -10,6 +10,25 @@ def run(ctx):
                 "err InsufficientData - never ok, another kind or a panic; the Lean decoder is run on the same prefixes and "
                 "kinds are compared. non-trivial = L >= 6 (past the header)")
     files = D.make_files(ctx, 60 if ctx.quick else 300, small=ctx.quick) + D.make_files(ctx, 15 if ctx.quick else 80)
+    # categorical / low-cardinality files: 3..9 single-valued ranges, Huffman codes of 2+ bits and zero-width
+    # offsets, so that the last number of a chunk is nothing but a short code next to a byte boundary
+    cat_cases = []
+    for _ in range(400 if ctx.quick else 4000):
+        dt = rng.choice([d for d in S.ALL_DT if d != "bool"])
+        k = rng.range(3, 9)
+        vals = []
+        while len(vals) < k:
+            v = __import__("qco.gen", fromlist=["x"]).random_pattern(rng, dt)
+            if v not in vals:
+                vals.append(v)
+        weights = [rng.choice([1, 1, 2, 3, 5, 8]) for _ in vals]
+        pool = [v for v, w in zip(vals, weights) for _ in range(w)]
+        n = rng.range(20, 260)
+        xs = [rng.choice(pool) for _ in range(n)]
+        cat_cases.append({"dt": dt, "level": rng.choice([3, 5, 8]), "order": 0, "gcds": rng.below(2), "chunks": [xs], "kinds": ["categorical"], "drain": 0})
+    for c, a in zip(cat_cases, C.harness([S.compress_line(c) for c in cat_cases], timeout=600)):
+        if a.startswith("ok bytes="):
+            files.append({"dt": c["dt"], "hex": a.split(" ")[1][len("bytes="):], "chunks": c["chunks"], "order": 0, "desc": "%s/categorical" % c["dt"]})
     lines, info = [], []
     for f in files:
         nb = len(f["hex"]) // 2
